@@ -72,6 +72,16 @@ func Zero(typ types.Type) string {
 	return "nil"
 }
 
+// ZeroOf returns the zero value as a string, for a given type and the string of that type.
+// Unlike Zero, it also knows the zero value of a struct and an array, which is the empty composite literal.
+func ZeroOf(typ types.Type, typeStr string) string {
+	switch typ.Underlying().(type) {
+	case *types.Struct, *types.Array:
+		return typeStr + "{}"
+	}
+	return Zero(typ)
+}
+
 func IsComparable(tt types.Type) bool {
 	t := tt.Underlying()
 	switch typ := t.(type) {
